@@ -1,3 +1,3 @@
 SPECIFICATION Spec
-INVARIANTS C09Fifo C09Depth C09DepthRest GenIdle C08Run C08 C08Sentinel NoGarbage NoSkip
+INVARIANTS C09Fifo C09Depth C09DepthRest GenIdle C08Run C08 C08Sentinel C08PostFifo NoGarbage NoSkip
 CHECK_DEADLOCK FALSE
